@@ -26,7 +26,14 @@ from harness import cm, pool, traces
 from harness.core import Ctx, MachineryError
 
 CFG = "SPECIFICATION Spec\nCONSTRAINT Mark\nPOSTCONDITION Post\nCHECK_DEADLOCK FALSE\n"
-KINDS = ["text", "bytes", "path", "url", "textfile", "binfile", "element", "tree", "resource"]
+KINDS = ["text", "bytes", "path", "url", "textfile", "binfile", "element", "tree", "resource", "hinted"]
+# "hinted": the document file carries xsi:schemaLocation / xsi:noNamespaceSchemaLocation hints that name a DECOY schema
+# (every root declared xs:anyType) next to it; the schema is handed to the package-level functions as a PATH and as
+# TEXT - the given schema decides, not the hint
+DECOY_T = (f'<xs:schema xmlns:xs="{cm.XS}" targetNamespace="urn:T">' + "".join(
+    f'<xs:element name="{n}" type="xs:anyType"/>' for n in ("lib", "root", "e", "E", "r", "P", "doc")) + "</xs:schema>")
+DECOY_0 = f'<xs:schema xmlns:xs="{cm.XS}"><xs:element name="v" type="xs:anyType"/></xs:schema>'
+
 
 
 NSMAP = {"t": "urn:T", "a": "urn:A", "f": "urn:F", "o": "urn:O", "p": "urn:P", "q": "urn:P", "x": "urn:X",
@@ -46,7 +53,10 @@ def expand(name):
 
 def norm_data(d):
     if isinstance(d, dict):
-        out = {expand(k): norm_data(v) for k, v in d.items() if not k.startswith("@xmlns")}
+        out = {expand(k): norm_data(v) for k, v in d.items()
+               if not k.startswith("@xmlns") and not k.endswith(("schemaLocation", "noNamespaceSchemaLocation"))}
+        if set(out) == {"$"}:
+            return out["$"]         # simple content whose only attributes were namespace declarations / location hints
         return out or None          # a dictionary holding only xmlns declarations is "no content"
     if isinstance(d, list):
         return [norm_data(x) for x in d]
@@ -66,6 +76,21 @@ def observe(case, ver, tmpdir):
     path = os.path.join(tmpdir, f"doc_{case['id']}_{ver}.xml")
     with open(path, "w", encoding="utf-8") as f:
         f.write(xml)
+    hinted = None
+    if len(case["xsds"]) == 1:
+        for name, text in (("decoy_t.xsd", DECOY_T), ("decoy.xsd", DECOY_0)):
+            with open(os.path.join(tmpdir, name), "w") as f:
+                f.write(text)
+        m = re.match(r"\s*(<\?xml[^>]*\?>)?\s*<[^\s/>]+", xml)
+        hint = ' xsi:schemaLocation="urn:T decoy_t.xsd" xsi:noNamespaceSchemaLocation="decoy.xsd"'
+        if "xmlns:xsi=" not in xml[:xml.index(">")]:
+            hint = ' xmlns:xsi="http://www.w3.org/2001/XMLSchema-instance"' + hint
+        hinted = os.path.join(tmpdir, f"hinted_{case['id']}_{ver}.xml")
+        with open(hinted, "w", encoding="utf-8") as f:
+            f.write(xml[:m.end()] + hint + xml[m.end():])
+        xsd_path = os.path.join(tmpdir, f"schema_{case['id']}_{ver}.xsd")
+        with open(xsd_path, "w", encoding="utf-8") as f:
+            f.write(case["xsds"][0])
     ids: dict = {}
 
     first_lax = []          # the first error of the first lax run: what a union's generic error stands for
@@ -104,6 +129,8 @@ def observe(case, ver, tmpdir):
             return ET.parse(path).getroot()
         if kind == "tree":
             return ET.parse(path)
+        if kind == "hinted":
+            return hinted
         return xmlschema.XMLResource(xml)
 
     def ev(entry, kind, **kw):
@@ -128,20 +155,24 @@ def observe(case, ver, tmpdir):
         if kind in ("element", "tree") and (case["origin"] == "derivation" or tree_ns is None):
             continue    # xsi:type values are QNames: a parsed tree has lost the prefixes they need
         nskw = {"namespaces": tree_ns} if kind in ("element", "tree") and ' ref="' in xml else {}
-        for api in ("method", "function"):
+        if kind == "hinted" and hinted is None:
+            continue
+        for api in ("method", "function") if kind != "hinted" else ("function-path", "function-text"):
             if api == "function" and kind not in ("text", "path", "element"):
                 continue
-            tag = kind if api == "method" else kind + "/pkg"
+            tag = kind if api == "method" else kind + "/pkg" if api == "function" else kind + "/" + api[9:]
+            given = schema if api in ("method", "function") else xsd_path if api == "function-path" else case["xsds"][0]
+            cls_kw = {} if api in ("method", "function") else {"cls": cm.schema_class(ver)}
             if api == "method":
                 is_valid = lambda s: schema.is_valid(s, **nskw)                 # noqa: E731
                 iter_errors = lambda s: schema.iter_errors(s, **nskw)           # noqa: E731
                 validate = lambda s: schema.validate(s, **nskw)                 # noqa: E731
                 decode = lambda s, **k: schema.decode(s, **nskw, **k)           # noqa: E731
             else:
-                is_valid = lambda s: xmlschema.is_valid(s, schema=schema, **nskw)            # noqa: E731
-                iter_errors = lambda s: xmlschema.iter_errors(s, schema=schema, **nskw)      # noqa: E731
-                validate = lambda s: xmlschema.validate(s, schema=schema, **nskw)            # noqa: E731
-                decode = lambda s, **k: xmlschema.to_dict(s, schema=schema, **nskw, **k)     # noqa: E731
+                is_valid = lambda s: xmlschema.is_valid(s, schema=given, **cls_kw, **nskw)            # noqa: E731
+                iter_errors = lambda s: xmlschema.iter_errors(s, schema=given, **cls_kw, **nskw)      # noqa: E731
+                validate = lambda s: xmlschema.validate(s, schema=given, **cls_kw, **nskw)            # noqa: E731
+                decode = lambda s, **k: xmlschema.to_dict(s, schema=given, **cls_kw, **nskw, **k)     # noqa: E731
             ok, r = guarded("is_valid", tag, lambda: is_valid(source(kind)))
             if ok is not None:
                 ev("is_valid", tag, res=bool(r) if ok else False, exc=0 if ok else eid(r))
